@@ -240,6 +240,16 @@ BAD = [
     ('unknown attribute', 'HTML', '<dtml-call x frob>'),
     ('unknown attribute', 'HTML', '<dtml-raise type=a frob=1>a</dtml-raise>'),
     ('unknown attribute', 'String', '%(x frob=1)s'),
+    ('malformed attribute', 'HTML', '<dtml-var x =3>'),
+    ('malformed attribute', 'HTML', '<dtml-var x ="a">'),
+    ('malformed attribute', 'HTML', 'a\n<dtml-in x size=>a</dtml-in>'),
+    ('malformed attribute', 'HTML', '<dtml-var x size= 3>'),
+    ('malformed attribute', 'HTML', '<dtml-var x size=3=4>'),
+    ('malformed attribute', 'HTML', '<dtml-if x = y>a</dtml-if>'),
+    ('malformed attribute', 'HTML', '<!--#with x = -->a<!--#/with-->'),
+    ('malformed attribute', 'HTML', '<dtml-call x =1>'),
+    ('malformed attribute', 'HTML', '<dtml-let a=b =c>a</dtml-let>'),
+    ('malformed attribute', 'String', '%(x =3)s'),
     ('duplicate attribute', 'HTML', '<dtml-var x size=1 size=2>'),
     ('duplicate attribute', 'HTML', '<dtml-in x size=1 size=2>a</dtml-in>'),
     ('duplicate attribute', 'HTML', '<dtml-var x name=y>'),
